@@ -588,6 +588,7 @@ def gen_pipeline(rng):
     fx['T'] = T
     fx['seq'] = (fx['seq'] * T)[:T]
     return dict(kind='pipeline', T=T, F=F, C=C, b_parts=parts, seed=rng.randrange(2 ** 31), flux=fx,
+                substreams=rng.random() < 0.4,
                 overrides=rng.choice(['none', 'empty', 'some', 'some']),
                 ptype=rng.choice(['K', 'B', 'G', 'G', 'GPHASE', 'GAMP_PHASE']),
                 inp=rng.choice(['m000h', 'm000v', 'm001h', 'm001v']), nan_rate=rng.choice([0.0, 0.15, 0.3]))
@@ -625,6 +626,18 @@ def eval_pipeline(ctx, c):
         return a
     targets, tobjs = target_sensor(c['flux'])
     raw = {'Observation/target': targets}
+    # one cal stream, or two substreams (self-cal: one per target) whose solution times interleave
+    subs = ['cal'] if not c.get('substreams') else ['cala', 'calb']
+    solutions = {}
+
+    def put(product, times, vals):
+        """register the raw solutions of one product, dealt out over the substreams"""
+        solutions[product] = (list(times), list(vals))
+        owner = [rng.randrange(len(subs)) for _ in times]
+        for si, sub in enumerate(subs):
+            mine = [k for k in range(len(times)) if owner[k] == si]
+            raw[f'{sub}_product_{product}'] = SimpleSensorGetter(
+                None, np.array([times[k] for k in mine], dtype=float), wrap([vals[k] for k in mine]))
     k_times = sorted(rng.sample(range(T), rng.randint(1, 2)))
     k_vals = []
     for _ in k_times:
@@ -632,24 +645,21 @@ def eval_pipeline(ctx, c):
         if rng.random() < 0.4:
             d[rng.randrange(2), rng.randrange(2)] = np.nan
         k_vals.append(d)
-    raw['cal_product_K'] = SimpleSensorGetter(None, np.array(k_times, dtype=float), wrap(k_vals))
+    put('K', k_times, k_vals)
     b_times = sorted(rng.sample(range(T), rng.randint(1, 2)))
     b_vals = [rnd((C,) + pol_ant, c['nan_rate']) for _ in b_times]
     if c['b_parts'] is None:
-        raw['cal_product_B'] = SimpleSensorGetter(None, np.array(b_times, dtype=float), wrap(b_vals))
+        put('B', b_times, b_vals)
     else:
         n = c['b_parts']
         for p in range(n):
-            raw[f'cal_product_B{p}'] = SimpleSensorGetter(None, np.array(b_times, dtype=float),
-                                                           wrap([np.split(v, n)[p] for v in b_vals]))
+            put(f'B{p}', b_times, [np.split(v, n)[p] for v in b_vals])
+        solutions['B'] = (list(b_times), list(b_vals))
     g_times = sorted(rng.sample(range(T), rng.randint(1, min(T, 5))))
-    raw['cal_product_G'] = SimpleSensorGetter(None, np.array(g_times, dtype=float),
-                                              wrap([rnd(pol_ant, c['nan_rate']) for _ in g_times]))
+    put('G', g_times, [rnd(pol_ant, c['nan_rate']) for _ in g_times])
     gp_times = sorted(rng.sample(range(T), rng.randint(1, min(T, 5))))
-    raw['cal_product_GPHASE'] = SimpleSensorGetter(None, np.array(gp_times, dtype=float),
-                                                   wrap([rnd((C,) + pol_ant, c['nan_rate']) for _ in gp_times]))
-    raw['cal_product_GAMP_PHASE'] = SimpleSensorGetter(None, np.array(gp_times, dtype=float),
-                                                       wrap([rnd(pol_ant, c['nan_rate']) for _ in gp_times]))
+    put('GPHASE', gp_times, [rnd((C,) + pol_ant, c['nan_rate']) for _ in gp_times])
+    put('GAMP_PHASE', gp_times, [rnd(pol_ant, c['nan_rate']) for _ in gp_times])
     cache = SensorCache(raw, timestamps=np.arange(T, dtype=float), dump_period=1.0, props=SENSOR_PROPS)
     measured = dict(c['flux']['table'])
     attrs = {'antlist': ants, 'pol_ordering': pols, 'center_freq': cal_spw.centre_freq, 'bandwidth': cal_spw.bandwidth,
@@ -662,10 +672,19 @@ def eval_pipeline(ctx, c):
         override = {}
     else:
         override = {nm: rng.choice([9.0, 0.0, 2.0]) for nm in rng.sample(TARGET_NAMES, 2)}
-    cal_freqs = add_applycal_sensors(cache, attrs, freqs, 'l1', ['cal'], gaincal_flux=override)
+    cal_freqs = add_applycal_sensors(cache, attrs, freqs, 'l1', subs, gaincal_flux=override)
     ptype, inp = c['ptype'], c['inp']
     index = (pols.index(inp[-1]), ants.index(inp[:-1]))
     product = get_cal_product(cache, 'l1', ptype)
+    ctx.tag('pipeline-substreams-%d' % len(subs))
+    # the product sensor holds, at the dump of every solution, that very solution (whatever substream or part it
+    # came from): the corrections below are derived from the product sensor, so this ties them to the raw solutions
+    for t_sol, v_sol in zip(*solutions[ptype]):
+        got_v = np.asarray(product[int(t_sol)])
+        if got_v.shape != np.asarray(v_sol).shape or not np.array_equal(got_v, v_sol, equal_nan=True):
+            msg = (f'product sensor {ptype} at the dump of the solution solved at t={t_sol} does not hold that solution '
+                   f'(solution times {solutions[ptype][0]}, substreams {subs}, parts {c["b_parts"]})')
+            return [], (lambda nodes, msg=msg: (msg, False))
     with np.errstate(all='ignore'):
         corr = cache.get(f'Calibration/Corrections/l1/{ptype}/{inp}')
     ctx.tag('pipeline-' + ptype, 'pipeline-override-' + c['overrides'])
